@@ -615,13 +615,19 @@ def check(pid, tier, seed):
     if fails:
         # group by failure class; shrink one representative per class
         by_cls = {}
+
+        def own_class(r):
+            """the part of a (possibly multi-property) verdict that concerns the property being checked"""
+            v = r["verdict"]
+            parts = [t for t in v[len("FAIL:"):].split(",") if t.startswith(pid + ":")]
+            return ",".join(parts) if parts else v
         for r in fails:
-            by_cls.setdefault(r["verdict"], []).append(r)
+            by_cls.setdefault(own_class(r), []).append(r)
         for cls, rs in sorted(by_cls.items()):
             rs.sort(key=lambda r: len(r["arg"]))
             rep = rs[0]
             try:
-                rep = shrink(rep, lambda x, c=cls: x["verdict"] == c)
+                rep = shrink(rep, lambda x, c=cls: is_fail(x) and own_class(x) == c)
             except Exception as e:  # shrinking is best effort
                 notes.append("shrink failed: %r" % (e,))
             report_fail(rep, "the property's executable predicate fails on the implementation's result (%d such cases)" % len(rs))
